@@ -57,7 +57,8 @@ RULE = (
     "max_time=1e-9 exactly one entry is created and the message names the time limit.  DOE (serial, 1 in 6 with "
     "n_processes=2): database keys of the non-failing samples == de-duplicated lib.samples in generation order, "
     "each called exactly once per function (and per Jacobian with eval_jac), recorded value == returned value, NaN "
-    "recorded as NaN, samples refused by a ValueError rule disturb nobody, nothing but samples is evaluated, counter "
+    "values and NaN Jacobians (finite values, drawn rule) recorded as NaN without ending the DOE, samples refused by "
+    "a ValueError rule disturb nobody, nothing but samples is evaluated, counter "
     "== new entries; a second DOE run sees only the new samples, a prefix of them within the remaining budget when "
     "counters are kept.  Non-trivial = an execution that GEMSEO ended (message contains 'GEMSEO stopped the "
     "driver') or a DOE holding a duplicated or failing sample or cut by a kept counter; distinct = structural hash "
@@ -599,6 +600,12 @@ def _doe_oracles(h, p, ctx, where, samples, old_keys, marks, budget_left):
                 ctx.check(got.shape == ref.shape and bool(np.all(np.abs(got - ref) <= err)), "doe_values",
                           f"{where}: {name} recorded as {got.tolist()} at {k.tolist()}, the function returned {ref.tolist()}")
             if p["eval_jac"]:
+                jac_is_nan = kb in counted.jac_nan_keys or (parallel and counted.jac_nan_rule is not None and counted.hits(counted.jac_nan_rule, k, None))
+                stored_jac = h.problem.database.get_function_value("@" + name, raw[kb])
+                ctx.check(stored_jac is not None, "doe_values", f"{where}: no Jacobian of {name} recorded at sample {k.tolist()} (eval_jac=True)")
+                got_nan = bool(np.isnan(np.asarray(stored_jac, dtype=float)).any())
+                ctx.check(got_nan == jac_is_nan, "doe_values",
+                          f"{where}: Jacobian of {name} at {k.tolist()} recorded {'with' if got_nan else 'without'} NaN, the function returned one {'with' if jac_is_nan else 'without'}")
                 n_j = counted.n_calls_at(kb, "j", marks[i])
                 ctx.check(n_j == 1 or parallel, "doe_once", f"{where}: Jacobian of {counted.poly.name} was called {n_j} times at sample {k.tolist()}")
     # failing samples: nothing was recorded for them, so a duplicate of a failing sample may be tried again, but never
@@ -660,6 +667,10 @@ def case_doe(p, ctx):
         ctx.cls("doe_failing_samples")
     if stats["n_nan"]:
         ctx.cls("doe_nan_values")
+    if p["problem"].get("jac_nan") is not None:
+        ctx.cls("doe_nan_jacobian_rule")
+        if any(c.jac_nan_keys for c in h.counted):
+            ctx.cls("doe_nan_jacobian_returned")
     if p["normalize_design_space"]:
         ctx.cls("doe_normalized")
     if p["eval_jac"]:
